@@ -185,6 +185,7 @@ inline int sim_main(int argc, char **argv)
   bool hashes = false, trace = false, thorough = false;
   unsigned enum_every = 0; // enumerate single faults for every k-th fault-free plan
   unsigned distinct_sample = 1;
+  std::uint64_t hashes_below = 0;
   unsigned run_timeout = 20; // seconds of wall clock per run (watchdog only, never a verdict input)
   for (int i = 1; i < argc; ++i)
   {
@@ -213,6 +214,8 @@ inline int sim_main(int argc, char **argv)
       budget = std::stod(next());
     else if (a == "--hashes")
       hashes = true;
+    else if (a == "--hashes-below")
+      hashes_below = std::stoull(next());
     else if (a == "--trace")
       trace = true;
     else if (a == "--thorough")
@@ -316,7 +319,7 @@ inline int sim_main(int argc, char **argv)
     events += ctx.events;
     if (ctx.interleaving != 0)
       interleavings.insert(ctx.interleaving);
-    if (hashes)
+    if (hashes || i < hashes_below)
       std::printf("H %llu %016llx\n", static_cast<unsigned long long>(i),
                   static_cast<unsigned long long>(o.hash));
     if (ctx.nontrivial)
